@@ -33,6 +33,13 @@ THEOREMS = [
     'Nb.C06.fileslice_threshold_eq_numpy',
     'Nb.C06.reads_within_extent',
     'Nb.C06.fileslice_int_out_of_range',
+    # stage D (independent NumPy spec, predict_shape)
+    'Nb.C06.npIndex_eq_npSpec',
+    'Nb.C06.npIndex_two_ellipses',
+    'Nb.C06.fileslice_eq_npSpec',
+    'Nb.C06.fileslice_two_ellipses',
+    'Nb.C06.predict_shape_spec',
+    'Nb.C06.predict_shape_two_ellipses',
 ]
 ASSUMPTIONS = [
     'hand-written Lean model of nibabel/fileslice.py (Model/C06.lean), tied to the code by the '
@@ -45,8 +52,16 @@ ASSUMPTIONS = [
 RULE = ('streams: exhaustive 1-D slices for n<=5 (start/stop in [-n-2,n+2]|None, step in +-1..3|None) x '
         '{full,contig,skip} x {C,F}; random 1-4 axis index tuples (ints, slices, one Ellipsis, newaxis) x '
         'itemsize {1,2,3,8,16} x offsets x heuristics incl. threshold sweeps; helper-prediction stream; '
-        'PySlice spec stream. A case is non-trivial when the index is not all-full-slices; distinct by '
+        'PySlice spec stream; `nps` stream: the independent Lean NumPy spec (Lemmas/C06_NpSpec) vs real NumPy '
+        'indexing (shape + element ids) on the random indices plus malformed tuples (two ellipses, too many '
+        'indices, rank 0); `ps` stream: predict_shape model vs real predict_shape, oracle = NumPy shape. '
+        'A case is non-trivial when the index is not all-full-slices; distinct by '
         '(shape, index, order, itemsize, heuristic).')
+
+def _ellipsis_overflow(shape, idx):
+    n_real = sum(1 for i in idx if i is not None and i is not Ellipsis)
+    return any(i is Ellipsis for i in idx) and n_real > len(shape)
+
 
 _N = None
 
@@ -102,7 +117,20 @@ def mk_case(shape, idx, order, isz, off, heur, extra_len=0, stream='main', flen=
     return Case(line, data, key, stream)
 
 
+def mk_np_case(op, shape, idx, order='F'):
+    """op 'nps': independent Lean NumPy spec vs real NumPy; op 'ps': predict_shape model vs real."""
+    shp = ','.join(map(str, shape)) if shape else '-'
+    if op == 'nps':
+        line = f'C06 nps {order} {shp} {fmt_idx(idx)}'
+    else:
+        line = f'C06 ps {shp} {fmt_idx(idx)}'
+    data = {'op': op, 'shape': list(shape), 'idx': [item_to_data(i) for i in idx], 'order': order}
+    return Case(line, data, (op, tuple(shape), fmt_idx(idx), order), op)
+
+
 def case_from_data(d):
+    if d['op'] in ('nps', 'ps'):
+        return mk_np_case(d['op'], tuple(d['shape']), tuple(item_from_data(i) for i in d['idx']), d['order'])
     if d['op'] == 'fs':
         return mk_case(tuple(d['shape']), tuple(item_from_data(i) for i in d['idx']), d['order'], d['isz'],
                        d['off'], d['heur'], flen=d.get('flen'), stream=d.get('stream', 'main'))
@@ -181,6 +209,21 @@ def impl(case):
             return f'{list(range(n))[f]} {fs.slice2len(s, n)} {list(range(n))[p]}'.replace(', ', ',')
         except Exception as e:
             return errname(e)
+    if d['op'] == 'nps':     # real NumPy basic indexing (reference for the independent Lean spec)
+        shape, idx, order = tuple(d['shape']), tuple(item_from_data(i) for i in d['idx']), d['order']
+        n = int(np.prod(shape, dtype=object)) if len(shape) else 1
+        full = np.arange(n, dtype=np.int64).reshape(shape, order=order)
+        try:
+            res = np.asarray(full[idx])
+        except IndexError:
+            return 'ERR'
+        return f'ok {list(res.shape)} {[int(x) for x in res.ravel(order=order)]}'.replace(', ', ',')
+    if d['op'] == 'ps':      # real predict_shape
+        shape, idx = tuple(d['shape']), tuple(item_from_data(i) for i in d['idx'])
+        try:
+            return f'ok {list(fs.predict_shape(idx, shape))}'.replace(', ', ',')
+        except (IndexError, ValueError):
+            return 'ERR'
     shape, idx = tuple(d['shape']), tuple(item_from_data(i) for i in d['idx'])
     isz, off, order = d['isz'], d['off'], d['order']
     f = TraceFile(make_store(shape, isz, off, d['flen']))
@@ -218,6 +261,17 @@ def oracle(case, out):
         if out != exp:
             return f'helper prediction differs from Python/NumPy: fill_slicer/slice2len/_positive_slice on n={n} {s}: got {out} want {exp}'
         return None
+    if d['op'] == 'nps':
+        return None          # spec validation only (reported as a broken correspondence of the spec)
+    if d['op'] == 'ps':      # property: predict_shape == shape of NumPy indexing, error iff NumPy errors
+        shape, idx = tuple(d['shape']), tuple(item_from_data(i) for i in d['idx'])
+        try:
+            want = 'ok ' + str(list(np.empty(shape, dtype=np.uint8)[idx].shape)).replace(', ', ',')
+        except IndexError:
+            want = 'ERR'
+        if out != want:
+            return f'predict_shape {out} != numpy {want} for shape={shape} idx={idx}'
+        return None
     shape, idx = tuple(d['shape']), tuple(item_from_data(i) for i in d['idx'])
     isz, off, order = d['isz'], d['off'], d['order']
     n = int(np.prod(shape, dtype=object)) if len(shape) else 1
@@ -252,6 +306,10 @@ def oracle(case, out):
 
 def signature(case, what):
     d = case.data
+    if d['op'] == 'ps' and _ellipsis_overflow(d['shape'], [item_from_data(i) for i in d['idx']]):
+        return 'predict_shape:ellipsis-too-many-indices'
+    if d['op'] in ('nps', 'ps'):
+        return 'npspec:' + d['op']
     if d['op'] != 'fs':
         return 'helpers:' + d['op']
     kinds = []
@@ -388,6 +446,24 @@ def cases(rng, tier):
         idx = rand_index(rng, shape, bad_int=rng.random() < 0.1)
         out.append(mk_case(shape, idx, rng.choice('CF'), isz, rng.choice([0, 1, 7, 352]), rand_heur(rng, shape, isz),
                            stream='random'))
+        # the same index against the independent NumPy spec and the predict_shape model
+        out.append(mk_np_case('nps', shape, idx, rng.choice('CF')))
+        out.append(mk_np_case('ps', shape, idx))
+    # ---- malformed / edge index tuples for the NumPy spec: two ellipses, too many indices, rank 0
+    for _ in range({'quick': 1500, 'thorough': 15000, 'search': 1500}[tier]):
+        nd = rng.choice([0, 1, 1, 2, 2, 3])
+        shape = tuple(rng.choice([0, 1, 2, 3, 4]) for _ in range(nd))
+        items = list(rand_index(rng, shape, bad_int=rng.random() < 0.3))
+        r = rng.random()
+        if r < 0.35:
+            items.insert(rng.randrange(0, len(items) + 1), Ellipsis)          # maybe a second ellipsis
+        if 0.25 < r < 0.6:
+            for _k in range(rng.choice([1, 1, 2])):                            # maybe too many indices
+                items.insert(rng.randrange(0, len(items) + 1), rand_item(rng, rng.choice([1, 2, 3]), True))
+        if r > 0.9:
+            items.insert(rng.randrange(0, len(items) + 1), None)
+        out.append(mk_np_case('nps', shape, tuple(items), rng.choice('CF')))
+        out.append(mk_np_case('ps', shape, tuple(items)))
     # ---- short files (reader must refuse, never fabricate)
     for _ in range({'quick': 300, 'thorough': 3000, 'search': 300}[tier]):
         nd = rng.choice([1, 2, 3])
